@@ -91,8 +91,11 @@ var c01Exemplars = []struct {
 }{
 	// regression exemplars of repaired defects (status "fixed": a diagnostic here is a violation again)
 	{"fixed-constant-type-is-the-only-use-of-an-include", "go", nil, map[string]string{
-		"main.thrift":   "include \"shared.thrift\"\nnamespace go kf.onlyconst\nconst shared.Name EMPTY = \"x\"\nconst shared.Num N = 3\n",
-		"shared.thrift": "namespace go kf.onlyconst.shared\ntypedef string Name\ntypedef i32 Num\n"}},
+		"main.thrift":   "include \"shared.thrift\"\nnamespace go kf.onlyconst\nconst shared.Name EMPTY = \"x\"\n",
+		"shared.thrift": "namespace go kf.onlyconst.shared\ntypedef string Name\n"}},
+	{"fixed-binary-constant-type-is-the-only-use-of-an-include", "go", nil, map[string]string{
+		"main.thrift":   "include \"shared.thrift\"\nnamespace go kf.onlybin\nconst shared.Raw R = \"bytes\"\n",
+		"shared.thrift": "namespace go kf.onlybin.shared\ntypedef binary Raw\n"}},
 	{"fixed-struct-literal-field-type-of-a-third-file", "fastgo", nil, map[string]string{
 		"main.thrift":   "include \"base.thrift\"\nnamespace go kf.third.mainpkg\nconst base.User U = {\"id\": 3}\nstruct S { 1: base.User u = {\"id\": 4} }\n",
 		"base.thrift":   "include \"shared.thrift\"\nnamespace go kf.third.base\nstruct User { 1: shared.Name id, 2: optional shared.Name alt }\n",
